@@ -91,7 +91,10 @@ def verdict(ctx, props, witness=None, sample=None):
             bad = label
             break
     w = witness(m) if witness is not None else {}
-    return {'k': 'viol', 'label': bad or 'property', 'w': w}
+    out = {'k': 'viol', 'label': bad or 'property', 'w': w}
+    if isinstance(w, dict) and 'prio' in w:
+        out['prio'] = w.pop('prio')
+    return out
 
 
 # ------------------------------------------------------------------ one path
